@@ -4,7 +4,7 @@ from typing import Any
 from lxml import etree
 
 from xsdata.exceptions import XmlHandlerError
-from xsdata.formats.dataclass.parsers.mixins import XmlHandler
+from xsdata.formats.dataclass.parsers.mixins import XmlHandler, delay_end_events
 from xsdata.models.enums import EventType
 
 EVENTS = (EventType.START, EventType.END, EventType.START_NS)
@@ -55,7 +55,7 @@ class LxmlEventHandler(XmlHandler):
         Returns:
             An instance of the class type representing the parsed content.
         """
-        for event, element in context:
+        for event, element in delay_end_events(context):
             if event == EventType.START:
                 self.parser.start(
                     self.clazz,
